@@ -856,6 +856,9 @@ func (e *Engine) callMods(c *ast.CallExpr, m *modset) {
 		return
 	}
 	switch full {
+	case "io.WriteString":
+		m.heaps["W_out"], m.heaps["W_failed"], m.heaps["W_err"] = true, true, true
+		return
 	case "sort.Strings", "sort.Slice", "sort.Sort", "sort.Ints", "sort.SliceStable", "sort.Stable", "slices.Sort", "slices.SortFunc":
 		if len(c.Args) > 0 {
 			if sl, ok := types.Unalias(e.typeOf(c.Args[0])).Underlying().(*types.Slice); ok {
@@ -1080,6 +1083,8 @@ func (e *Engine) execFor(s *ast.ForStmt, st *State, label string) *State {
 	if len(e.inlineStack) > 0 {
 		e.fail(s.Pos(), "loop inside an inlined function (give the callee a contract)")
 	}
+	e.loopEntry = append(e.loopEntry, st.clone())
+	defer func() { e.loopEntry = e.loopEntry[:len(e.loopEntry)-1] }()
 	e.checkInvariants(st, ls, ord, "inv-init", s.Pos())
 	m := e.modifiedIn(s.Body, s.Post, s.Cond)
 	var extra []string
@@ -1216,6 +1221,8 @@ func (e *Engine) execRange(s *ast.RangeStmt, st *State, label string) *State {
 		}
 	}
 	bindKey(st)
+	e.loopEntry = append(e.loopEntry, st.clone())
+	defer func() { e.loopEntry = e.loopEntry[:len(e.loopEntry)-1] }()
 	e.checkInvariants(st, ls, ord, "inv-init", s.Pos())
 	m := e.modifiedIn(s.Body)
 	var extra []string
